@@ -428,6 +428,31 @@ func Yield(site int) {
 	yieldPoint(site, false)
 }
 
+// Tick counts a step towards the running call's step budget without being a
+// scheduling point and without entering the event log.  It is what the
+// instrumented pure packages (safehtml, internal/safehtmlutil) call: a loop
+// there that never ends is then caught by the budget, while lazily
+// initialised tables in those packages cannot shift the schedule clock.
+//
+//go:norace
+func Tick(site int) {
+	if !active {
+		return
+	}
+	if aborted {
+		panic(&Abort{abortWhy})
+	}
+	t := &tasks[cur]
+	t.opYields++
+	if t.opYields > opBudget {
+		stats.Hang = true
+		stats.HangTask = cur
+		aborted = true
+		abortWhy = "step budget exceeded"
+		panic(&Abort{abortWhy})
+	}
+}
+
 // SeamYield is a scheduling point at a seam event (a write, a callback, a
 // lock operation): same as Yield but with the seam switch probability.
 //
